@@ -17,4 +17,9 @@ CASES = [
     dict(expect="fire", desc="pre-fix: timeout_with_mapper fallback without scheduler on completion", names="F0-scheduler-forwarded", edits=[dict(file="reactivex/operators/_timeoutwithmapper.py",
          old="                    if timer_wins():\n                        subscription.disposable = other_.subscribe(\n                            observer, scheduler=scheduler\n                        )\n\n                d.disposable",
          new="                    if timer_wins():\n                        subscription.disposable = other_.subscribe(observer)\n\n                d.disposable")]),
+    dict(expect="fire", desc="seed C17-r2/2: skip_with_time subscribes before arming its timer", names="X4-boundary-split", edits=[
+         dict(file="reactivex/operators/_skipwithtime.py", old="        def action(scheduler: abc.SchedulerBase, state: Any) -> None:\n            open[0] = True\n\n        t = _scheduler.schedule_relative(duration, action)\n\n", new=""),
+         dict(file="reactivex/operators/_skipwithtime.py", old="        return CompositeDisposable(t, d)", new="        def action(scheduler: abc.SchedulerBase, state: Any) -> None:\n            open[0] = True\n\n        t = _scheduler.schedule_relative(duration, action)\n        return CompositeDisposable(t, d)")]),
+    dict(expect="fire", desc="seed C17-r2/3: timeout on_next no longer bumps the id", names="X2-timeout-stale-guard", edits=[dict(file="reactivex/operators/_timeout.py",
+         old="            if send_wins:\n                _id[0] += 1\n", new="            if send_wins:\n")]),
 ]
